@@ -185,7 +185,7 @@ func tokensOf(v interface{}) []string {
 	return out
 }
 
-func strHandle(in []byte) []byte {
+func strHandle(in []byte) (ret []byte) {
 	var c strCase
 	if err := json.Unmarshal(in, &c); err != nil {
 		return []byte(`{"error":"bad case"}`)
@@ -196,6 +196,7 @@ func strHandle(in []byte) []byte {
 	defer func() {
 		if r := recover(); r != nil {
 			res.bad(&c, "any", "fault_or_panic", nil, "", fmt.Sprint(r))
+			ret, _ = json.Marshal(res)
 		}
 	}()
 	var e map[string]interface{}
@@ -260,7 +261,9 @@ func strQuoteCase(c *strCase, res *strRes, r *rand.Rand, lead, trail string) {
 		}
 	}
 	// HTMLEscape equals encoding/json.HTMLEscape and preserves the destination prefix
-	for _, prefix := range []string{"", "PRE<&>FIX"} {
+	// (destinations that already hold more than the source is long, with and without spare capacity: the growth of a
+	// destination is computed from both lengths)
+	for _, prefix := range []string{"", "PRE<&>FIX", strings.Repeat("PRE<&>FIX", 12+r.Intn(8)), strings.Repeat("PRE<&>FIX", 400)} {
 		var wb bytes.Buffer
 		wb.WriteString(prefix)
 		json.HTMLEscape(&wb, []byte(q))
